@@ -4,8 +4,7 @@ import os, sys
 sys.path.insert(0, os.path.join(os.path.dirname(os.path.abspath(__file__)), '..', 'tools'))
 import vlib, regen
 
-SRC = lambda: [os.path.join(vlib.VERIF, 'harness/pure.c'), os.path.join(vlib.REPO, 'librfn/util.c'),
-               os.path.join(vlib.REPO, 'librfn/posix/time_posix.c')]
+SRC = lambda: [os.path.join(vlib.VERIF, 'harness/pure.c')]
 FLAGS = lambda: ['-I' + os.path.join(vlib.REPO, 'librfn'), '-lpthread']
 
 
@@ -16,15 +15,16 @@ def regen_units(ctx, units):
     return not errs
 
 
-def build(ctx):
-    exe, log = ctx.cc('pure', SRC(), FLAGS())
-    fast, log2 = ctx.cc('pure_fast', SRC(), FLAGS() + ['-O2'], san=False)
+def build(ctx, section):
+    """section: PURE_BITS | PURE_RAND | PURE_ROTENC - only that unit's library sources are compiled into the harness"""
+    exe, log = ctx.cc('pure', SRC(), FLAGS() + ['-D' + section])
+    fast, log2 = ctx.cc('pure_fast', SRC(), FLAGS() + ['-O2', '-D' + section], san=False)
     if not exe or not fast:
         raise vlib.Infra('pure harness does not compile against /repo: ' + (log + log2)[-1500:])
     return exe, fast
 
 
-def differential(ctx, exe, lines):
+def differential(ctx, exe, lines, engine):
     """run the same call lines through the compiled C and the generated Lean definitions.
     returns (c_out, lean_out) as lists; lean_out is None if the model driver is unavailable"""
     text = '\n'.join(lines) + '\n'
@@ -34,7 +34,7 @@ def differential(ctx, exe, lines):
     c_out = out.strip('\n').split('\n')
     lean_out = None
     if ctx.build_model():
-        lean_out = ctx.run_model(['pure'], text).strip('\n').split('\n')
+        lean_out = ctx.run_model([engine], text).strip('\n').split('\n')
     return c_out, lean_out
 
 
